@@ -183,6 +183,7 @@ class Lib:
         S.append((path(r"^<std::slice::Iter<'a, T> as std::iter::Iterator>::(all|any)$"), self.slice_iter_all_any))
         S.append((path(r"^<std::slice::Iter(Mut)?<'a, T> as std::iter::Iterator>::for_each$"), self.slice_iter_for_each))
         S.append((path(r"^std::iter::Iterator::for_each$|^<std::iter::Enumerate<I> as std::iter::Iterator>::for_each$"), self.enumerate_for_each))
+        S.append((path(r"^std::iter::Iterator::for_each$|^<std::iter::(Filter|Chain)<.*> as std::iter::Iterator>::for_each$"), self.pipeline_for_each))
         S.append((path(r"^std::iter::Iterator::zip$"), self.iter_zip))
         S.append((path(r"^<std::iter::Zip<A, B> as std::iter::Iterator>::next$"), self.zip_next))
         S.append((path(r"^<std::iter::Zip<A, B> as std::iter::Iterator>::(all|any)$|^std::iter::Iterator::(all|any)$"), self.zip_all_any))
@@ -556,6 +557,77 @@ class Lib:
             return CallThen(body, [Ref(("H", fcell.id), ()), elem], lambda it2, st2, rv: step(it2, st2))
 
         return step(it, st)
+
+    def pipeline_for_each(self, it, st, inst, args, call):
+        """`pipeline.for_each(f)` where the pipeline is built from `once(x)`, `a.chain(b)`, `.filter(p)` over exactly modelled slice
+        iterators: the items are enumerated front to back (Chain: first a, then b; Filter: the predicate is interpreted on a
+        reference to each item, in order), then f is interpreted on each item that is left."""
+        from .absint import CallThen
+        P = it.p
+        v = args[0]
+
+        def tyname(x):
+            return P.types[x.ty].get("name") if isinstance(x, Agg) and x.ty is not None else None
+
+        if tyname(v) not in ("std::iter::Filter", "std::iter::Chain", "std::iter::Once"):
+            return NotImplemented
+
+        def fields(x):
+            return dict(zip([f["name"] for f in P.types[x.ty]["variants"][0]["fields"]], x.fields))
+
+        def closure_of(val):
+            if isinstance(val, Agg) and val.ty is not None and P.types[val.ty]["k"] == "closure":
+                ci = closure_instance(P, val.ty)
+                if ci is not None:
+                    return ci
+            raise Undecided("cannot identify a closure of the iterator pipeline: %r" % (val,))
+
+        def items(st_, x, k):
+            """calls k(st, [items]) (possibly through CallThen)"""
+            n = tyname(x)
+            if isinstance(x, Obj) and isinstance(st_.heap.get(x.id), AIter):
+                a = st_.heap[x.id]
+                st_.heap[x.id] = AIter(a.vec, a.end, a.end, a.role)
+                return k(st_, [Ref(("H", a.vec), (("el", i),)) for i in range(a.pos, a.end)])
+            if n == "std::option::Option":
+                return k(st_, []) if x.variant == 0 else items(st_, x.fields[0], k)
+            if n == "std::iter::Once":
+                inner = x
+                for _ in range(3):  # Once { inner: option::IntoIter { inner: Item { opt } } }
+                    inner = inner.fields[0] if isinstance(inner, Agg) and tyname(inner) != "std::option::Option" else inner
+                if tyname(inner) != "std::option::Option":
+                    raise Undecided("unexpected layout of Once: %r" % (x,))
+                return k(st_, [] if inner.variant == 0 else [inner.fields[0]])
+            if n == "std::iter::Chain":
+                f = fields(x)
+                return items(st_, f["a"], lambda st2, xs: items(st2, f["b"], lambda st3, ys: k(st3, xs + ys)))
+            if n == "std::iter::Filter":
+                f = fields(x)
+                pred = closure_of(f["predicate"])
+                pcell = st_.new_obj(f["predicate"])
+
+                def keep(st2, xs, acc):
+                    if not xs:
+                        return k(st2, acc)
+                    cell = st2.new_obj(xs[0])
+
+                    def then(it3, st3, rv):
+                        if not isinstance(rv, Conc):
+                            raise Undecided("filter predicate returned %r" % (rv,))
+                        return keep(st3, xs[1:], acc + ([xs[0]] if rv.v else []))
+                    return CallThen(pred, [Ref(("H", pcell.id), ()), Ref(("H", cell.id), ())], then)
+                return items(st_, f["iter"], lambda st2, xs: keep(st2, xs, []))
+            raise Undecided("iterator pipeline with an unmodelled stage: %r" % (x,))
+
+        body = closure_of(args[1])
+        fcell = st.new_obj(args[1])
+
+        def run(st_, xs):
+            if not xs:
+                return UNIT
+            return CallThen(body, [Ref(("H", fcell.id), ()), xs[0]], lambda it2, st2, rv: run(st2, xs[1:]))
+
+        return items(st, v, run)
 
     def enumerate_for_each(self, it, st, inst, args, call):
         """`slice_iter.enumerate().for_each(f)`: the closure is interpreted once per remaining element with (count, element),
